@@ -54,6 +54,16 @@ var commonAssumptions = []string{
 }
 
 var propSpecs = []PropSpec{
+	{ID: "C19", Pkgs: []string{"dt/hdrhist"},
+		BoundsQ:     "lemmas: v = any 64-bit value in [min,max], shape grid sig 1..3 x 5 mins x boundary/decimal maxes (countsLen<=300000); walk: 5 small shapes, <=2 distinct values x multiplicity <=2, every rank, q=100, q>100, Min/Max, Export/Import, Merge",
+		BoundsT:     "lemmas: sig 1..5 x 8 mins x extended maxes up to 2^62; walk: 8 small shapes, <=3 values x multiplicity <=2",
+		Outside:     "shapes off the grid; Mean/StdDev/CumulativeDistribution; arbitrary Float64 q (only rank-targeting q, 100, >100); more than 3 distinct recorded values in whole-histogram walks; composition of the per-value lemmas into the quantile clause for large shapes is an argument (DESIGN C19), not a query",
+		Assumptions: commonAssumptions,
+		Tune: func(cfg *Config, tier, entry string) {
+			cfg.Race = false
+			cfg.Unwind = 5000
+			cfg.ConcretizeIndex = entry == "VC19_Walk"
+		}},
 	{ID: "TV", Pkgs: []string{"internal"}, BoundsQ: "translator validation corpus"},
 }
 
